@@ -85,7 +85,7 @@ def eval_case(spec, case, traces, out, record=True):
 def shrink(spec, binp, case, seed, kind, budget=60):
     """delta-debug the symbolic op list, keeping a failure of the same kind"""
     def fails(ops):
-        c = Case(case.name, ops, case.meta)
+        c = Case(case.name, ops, case.meta, mode=case.mode)
         try:
             tr = {b: run_cases(binp, [c], b, seed, shards=1).get(c.name, []) for b in spec.backends}
         except Exception:
@@ -135,7 +135,7 @@ def run_l1_property(spec, tier, seed, replay=None, proof=None):
     rng = random.Random(seed)
     if replay:
         rp = json.load(open(replay))
-        cases = [Case(rp.get("name", "replay"), rp["symbolic_ops"], rp.get("meta"))]
+        cases = [Case(rp.get("name", "replay"), rp["symbolic_ops"], rp.get("meta"), mode=rp.get("mode", getattr(spec, "mode", "lib")))]
     else:
         cases = []
         cdir = os.path.join(VERIF, "corpus", prop)
@@ -143,7 +143,7 @@ def run_l1_property(spec, tier, seed, replay=None, proof=None):
             for f in sorted(os.listdir(cdir)):
                 if f.endswith(".json"):
                     rp = json.load(open(os.path.join(cdir, f)))
-                    cases.append(Case("corpus-" + f[:-5], rp["symbolic_ops"], rp.get("meta")))
+                    cases.append(Case("corpus-" + f[:-5], rp["symbolic_ops"], rp.get("meta"), mode=rp.get("mode", getattr(spec, "mode", "lib"))))
         cases += spec.cases(rng, tier)
     results = {b: run_cases(binp, cases, b, seed) for b in spec.backends}
     problems = []
@@ -204,7 +204,7 @@ def finish(spec, tier, seed, proof, out, problems, binp, t0, ncases, extra_cov=N
         if kmatch:
             print(f"KNOWN-FINDING: property={prop} {kmatch[0]['what']}")
             continue
-        payload = {"property": prop, "kind": kind, "name": c.name, "symbolic_ops": ops, "meta": c.meta,
+        payload = {"property": prop, "kind": kind, "name": c.name, "symbolic_ops": ops, "meta": c.meta, "mode": c.mode,
                    "messages": msgs[:10], "seed": seed,
                    "how_to_replay": f"./check {prop} --replay <this file>",
                    "traces": {b: [f"{o} => impl `{ri}` model `{rm}`" for o, ri, rm in t][:200] for b, t in traces.items()}}
